@@ -7,7 +7,8 @@ tie   : T-cor - the extracted model and the real containers (kit managers / allo
 oracle: the property predicate evaluated inside harness.cpp on the real code (independent of the model)."""
 import os, sys, importlib.util
 
-NATIVE = ['Array', 'ArrayIC', 'Seg', 'HashSet', 'HashMap', 'HashMulti', 'TreeSet', 'TreeMap', 'DataTable']
+INLINE = ['HashSetInl', 'TreeSetInl']     # inline crew (checkVersion = false, stateless manager), stateful traits: ids = traits states
+NATIVE = INLINE + ['Array', 'ArrayIC', 'Seg', 'HashSet', 'HashMap', 'HashMulti', 'TreeSet', 'TreeMap', 'DataTable']
 WRAP = ['vec', 'set', 'mset', 'map', 'mmap', 'uset', 'umap', 'ummap']
 CREW_WRAP = ['set', 'mset', 'map', 'mmap', 'uset', 'umap', 'ummap']
 ARRAYS = ['Array', 'ArrayIC', 'Seg', 'vec']
@@ -37,6 +38,10 @@ def states_for(kind, role):
         return ['e', 'n1', 'n5', 'n40', 'c9'] if role == 's' else ['e', 'n3', 'c9']
     if kind == 'ArrayIC':
         return ['e', 'i1', 'i3', 'i4', 'n5', 'n40', 'c9'] if role == 's' else ['e', 'i2', 'n9']
+    if kind == 'HashSetInl':
+        return ['e', 'n1', 'n10', 'c10', 'n100'] if role == 's' else ['e', 'n3', 'n40', 'c5']
+    if kind == 'TreeSetInl':
+        return ['e', 'n1', 'n7', 'c10', 'd60'] if role == 's' else ['e', 'n3', 'd40']
     if kind in ('HashSet', 'HashMap', 'uset', 'umap'):
         # default bucket: capacity 32, 128, 512 -> the 33rd / 129th insertion grows
         return ['e', 'n1', 'n10', 'c10', 'n100', 'g33', 'h33', 'g129', 'h129'] if role == 's' else ['e', 'n3', 'h33', 'c5']
@@ -53,7 +58,7 @@ def states_for(kind, role):
 
 def source_moved_from_by_std(tr, kind, op, sid, tid, aid):
     """after `op`, is the source a moved-from crew container?  (std rules, NOT the Coq model)"""
-    if kind in ARRAYS: return False
+    if kind in ARRAYS or kind in INLINE: return False          # an inline crew has no null state
     ca, ma, sw, em = tr_bits(tr)
     if op == 'movec': return True
     if op == 'movea': return tr == 'N' or em or ma or sid == tid
@@ -69,6 +74,7 @@ def expected_ids_by_std(tr, kind, op, sid, tid, aid):
     if tr == '8': return ('0', 'null' if source_moved_from_by_std(tr, kind, op, sid, tid, aid) else '0')
     s_after = 'null' if source_moved_from_by_std(tr, kind, op, sid, tid, aid) else str(sid)
     if op == 'merge': return (str(tid), str(sid))
+    if kind in INLINE and op == 'copyca': return (str(sid), str(sid))     # X(const X&, MemManager) takes the source's traits
     if op in ('copyc', 'movec'): t = sid
     elif op in ('copyca', 'moveca'): t = aid
     elif op == 'copya': t = sid if ca else tid
@@ -113,6 +119,7 @@ def gen_cases(ctx, scale):
                 ops = ['copyc', 'copyca', 'movec', 'copya', 'movea', 'swap', 'selfcopya', 'selfmovea', 'selfswap', 'none']
                 if fam == 'W': ops.append('moveca')
                 if kind == 'DataTable': ops.remove('copyca')
+                if kind in INLINE: ops = ops + ['swap', 'movea', 'copya']      # the operations that go through SetCrew::Swap, twice as often
                 for op in ops:
                     for ss in states_for(kind, 's'):
                         tss = states_for(kind, 't')
@@ -270,12 +277,15 @@ def attach_structure_tokens(ctx, cases):
     ri = _load_run_impl(ctx)
     suffix = '.san' if ctx.tier == 'thorough' else ''
     keys = {}
+    def key_of(tr, kind, ss, ts, sid, tid):
+        b = tr if tr == 'N' else '0'
+        # the shape of an inline-crew tree depends on its comparator's direction (= its id)
+        return (b, kind, ss, ts, sid, tid) if kind in INLINE else (b, kind, ss, ts, 1, 1)
     for c in cases:
         tr, kind, op, ss, ts, sid, tid, aid, post = case_fields(c)
-        b = tr if tr == 'N' else '0'
-        keys.setdefault((b, kind, ss, ts), None)
-        if est_state(kind, ss): keys.setdefault((b, kind, est_state(kind, ss), 'e'), None)
-    q = ['%s %s describe %s %s 1 1 1 none' % k for k in keys]
+        keys.setdefault(key_of(tr, kind, ss, ts, sid, tid), None)
+        if est_state(kind, ss): keys.setdefault(key_of(tr, kind, est_state(kind, ss), 'e', 1, 1), None)
+    q = ['%s %s describe %s %s %d %d 1 none' % k for k in keys]
     out = ri.run_all(q, ctx.build, suffix)
     for k, l in zip(list(keys), out):
         f = l.split(' | ')[0].split()
@@ -283,9 +293,8 @@ def attach_structure_tokens(ctx, cases):
     res = []
     for c in cases:
         tr, kind, op, ss, ts, sid, tid, aid, post = case_fields(c)
-        b = tr if tr == 'N' else '0'
-        a, bb = keys[(b, kind, ss, ts)]
-        e = keys[(b, kind, est_state(kind, ss), 'e')][0] if est_state(kind, ss) else '*'
+        a, bb = keys[key_of(tr, kind, ss, ts, sid, tid)]
+        e = keys[key_of(tr, kind, est_state(kind, ss), 'e', 1, 1)][0] if est_state(kind, ss) else '*'
         res.append('%s %s %s %s' % (c, a, bb, e))
     ctx.coverage['structure_descriptions'] = len(keys)
     return res
